@@ -109,7 +109,9 @@ func (c04) Gen(seed uint64, run int, tier string) *Plan {
 			p.Actions = append(p.Actions, Action{Kind: "checkin", B: d, C: []int{0, 0, 0, 1, 2}[r.Intn(5)]})
 		case x < 97:
 			if p.Policy.Name != "atomic" {
-				p.Actions = append(p.Actions, Action{Kind: "par", A: 2 + r.Intn(3)})
+				// (C = 1: whatever is in the middle of something half way through the group gets no CPU
+				// until the rest of the group has been served - fault "stalled goroutine")
+				p.Actions = append(p.Actions, Action{Kind: "par", A: 2 + r.Intn(3), C: []int{0, 0, 1}[r.Intn(3)]})
 			} else {
 				p.Actions = append(p.Actions, Action{Kind: "checkin", B: d})
 			}
@@ -288,7 +290,7 @@ func (c04) Exec(p *Plan, dir string) *Result {
 				n = len(p.Actions) - 1 - i
 			}
 			if n > 0 {
-				st.parallel(p.Actions[i+1 : i+1+n])
+				st.parallel(p.Actions[i+1:i+1+n], a.C == 1)
 				i += n
 			}
 		}
@@ -533,7 +535,7 @@ func (st *c04State) uploadCmd(di int, t world.Task, e c04Entry) bool {
 
 // parallel injects a group of actions concurrently, then checks exactly-once and
 // per-producer order over the group plus a drain, and linearizability of the history.
-func (st *c04State) parallel(group []Action) {
+func (st *c04State) parallel(group []Action, stall bool) {
 	w, res := st.w, st.res
 	res.Probe("parallel-groups")
 	// flush reference queues first so that the group starts from a known state
@@ -561,7 +563,12 @@ func (st *c04State) parallel(group []Action) {
 	}
 	var enqs []*enq
 	var chks []*chk
-	for _, a := range group {
+	var stalled []*simrt.Task
+	for gi, a := range group {
+		if stall && gi == (len(group)+1)/2 {
+			stalled = w.Sim.StallRunnable()
+			res.Probe("fault:stalled-goroutine")
+		}
 		switch a.Kind {
 		case "task":
 			di := a.B % len(w.Demons)
@@ -583,6 +590,10 @@ func (st *c04State) parallel(group []Action) {
 		w.Sim.RunSteps(uint64(w.Sim.SchedRand().Intn(40)))
 	}
 	w.Sim.Settle()
+	if stalled != nil {
+		w.Sim.Release(stalled)
+		w.Sim.Settle()
+	}
 	// returns of enqueue operations = the echo the issuing operator receives
 	for _, o := range w.Operators {
 		o.Pump()
